@@ -11,5 +11,8 @@ EXPLANATION = (
 ASSUMED = ["ASSUMED range contracts of snake_case / pascal_case (exhaustively checked for all identifiers of length <= 6 over {a,b,A,B,1,_} only)",
            "A-IDENT"]
 from pyvc.check import external_bounded
+from pyvc.check import external_bounded
 BOUNDED = [external_bounded("names-exhaustive", "standin_misc.names", ["--maxlen", "5"], ["--maxlen", "6"],
-                            "all identifiers up to length 5 (quick) / 6 (thorough) over {a,b,A,B,1,_} + keywords/builtins + corpus, exhaustive")]
+                            "all identifiers up to length 5 (quick) / 6 (thorough) over {a,b,A,B,1,_} + keywords/builtins + corpus, exhaustive"),
+           external_bounded("deep-schema:C19", "standin.deep", ["C19", "--n", "150"], ["C19", "--n", "800"],
+                            "twin classes whose fields share a camelCase key (address_line_1 / address_line1), both first-use orders")]
